@@ -55,4 +55,5 @@ def main(tier, replay=None):
     res.assumptions = ["reference verdict function written from qmail-remote(8) and the property statement (seq/c09_remote.c ref_verdict)",
                        "function level: network = harness stand-ins for timeoutread/timeoutwrite; program level: resolver answers, connect() results and the peer are scripted by the virtual kernel scenario (vk/scn_remote.cpp)"]
     res.require_nonzero("evaluations", "verdict_K", "verdict_Z", "verdict_D", "possible_duplicate", "chained_into_report", "connect_attempts", "dns_queries", "messages_decoded_from_wire")
+    lib_conformance(res, rd, src, ['io', 'num'], tier, asan=True)
     return res.finish()
